@@ -233,6 +233,9 @@ func genC03(tier string, seed uint64, run int) *Scenario {
 		n, t = nt(r, 3)
 		if tier == "thorough" {
 			n, t = nt(r, 5)
+		} else if run == 7 {
+			// one quick run with a threshold above 2: polynomial evaluation with powers beyond the square
+			n, t = 4, 3
 		}
 		p["preoff"] = r.IntN(5)
 	} else {
